@@ -21,6 +21,7 @@ EXPLANATION = (
     "drive only idempotent/guarded mutations of shared state with values obtained across an await. C14.5 every "
     "@contextmanager generator runs its post-yield statements on the exception path too (role-anchored)."
     " C14.1 also: an exception or cancellation that ends the initialize phase cannot be followed by main(); the phase context manager lets exceptions propagate."
+    " C14.2 also: the isolating handler does not read attributes of the user-supplied callable."
 )
 TRUSTED = ["CPython ast parser", "sa.cfg statement CFG", "mypy callee resolution (call graph)",
            "asyncio semantics: only await/async for/async with suspend"]
